@@ -1115,6 +1115,8 @@ func main() {
 	c.Assume("blake2b-224 and ed25519 (golang.org/x/crypto, crypto/ed25519) are trusted")
 	c.Assume("key hashes and the input txid are representatives derived from VERIF_SEED; structure (scripts, key subsets, interval bounds) is what is enumerated")
 	c.Assume("a re-encoded script that the decoder rejects is outside C29 (decoded scripts only); acceptance of non-minimal headers is C03's subject")
+	// free-running -race pass: concurrent callers on their own inputs (state the library shares between calls)
+	c.RaceAudit("c29")
 	c.Finish()
 }
 
